@@ -7,12 +7,12 @@ func init() {
 		Trusted:     trustedCommon,
 	})
 	reg("C19", &PropSpec{
-		Rules:       []Rule{r("TG", RuleTG), r("H1", RuleH1), r("TP1", RuleTP1), r("R4", RuleR4), r("TN1", RuleTN1)},
+		Rules:       []Rule{r("TG", RuleTG), r("H1", RuleH1), r("TP1", RuleTP1), r("R3", RuleR3), r("R4", RuleR4), r("TN1", RuleTN1)},
 		Explanation: "Decided: sibling agreement of the two interaction creators with the tag resolver (same id, every name appended, no exit between registering and storing), tag names only from members of the Tags collection, at least one tag per interaction (TG1-3); declared tags are unique and the automatic path tag is reused, never duplicated (H1); the tag chooser consults its three sources in the stated precedence: own Tags child, else the enclosing URL's Tags, else the path tag (TP1, order of the source tests in the CFG). Not decided: injectivity of the automatic tag name over all strings, titles.",
 		Trusted:     trustedCommon,
 	})
 	reg("C04", &PropSpec{
-		Rules:       []Rule{r("K1", RuleK1), r("M1", RuleM1), r("D4", RuleD4), r("K2", RuleK2), r("ID1", RuleID1), r("ID2", RuleID2), r("X1", RuleX1), r("R4", RuleR4), r("K2p", RuleK2p), r("TW1", RuleTW1)},
+		Rules:       []Rule{r("K1", RuleK1), r("M1", RuleM1), r("D4", RuleD4), r("K2", RuleK2), r("ID1", RuleID1), r("ID2", RuleID2), r("X1", RuleX1), r("R3", RuleR3), r("R4", RuleR4), r("H3", RuleH3), r("K2p", RuleK2p), r("TW1", RuleTW1)},
 		Explanation: "Whole-document equality with a model is not statically decidable. Decided necessary conditions: every directive kind has a consumer (K1: a kind without one is silently dropped); every field of the catalog model is serialised (M1); collections keep and serialise source order (D4); every directive of the table can be spelled to the scanner and nothing else can (K2); interactions are stored under the id they were built from (ID1); total serialisation switches (X1). Not decided: which interaction a child attaches to (C06), that values are copied unchanged, 'nothing else'.",
 		Trusted:     trustedCommon,
 	})
